@@ -625,6 +625,19 @@ func (x *Exec) evalCall(env *Env, e *Expr) (Val, error) {
 		}
 		return Store(args[0], args[1], Add(Select(args[0], args[1]), args[2])), nil
 	case "len":
+		// a list whose elements are outside the model (interface values ...) still has a length
+		if len(e.Args) == 1 && env.st != nil {
+			if v, err := x.eval1(env, e.Args[0]); err == nil {
+				switch ov := x.autoDeref(env, v).(type) {
+				case *OpaqueVal:
+					return x.opaqueLen(env.st, ov), nil
+				case *NilPtr:
+					if _, isSl := ov.Type.Underlying().(*types.Slice); isSl {
+						return IntLit(0), nil
+					}
+				}
+			}
+		}
 		if err := need(1); err != nil {
 			return nil, err
 		}
@@ -761,6 +774,16 @@ func (x *Exec) evalCall(env *Env, e *Expr) (Val, error) {
 			return nil, err
 		}
 		return nftKey(args[0], args[1]), nil
+	case "nftsof": // nftsof(class): the list of the tokens of a class as the x/nft keeper lists them (A-NFT)
+		if err := need(1); err != nil {
+			return nil, err
+		}
+		toks := env.cur.get("nftTokens")
+		if toks == nil || !isMapSort(toks.Sort) {
+			return nil, fmt.Errorf("nftsof: no token table in this unit")
+		}
+		ls := SliceSort(toks.Sort.Fields[1].Sort.Elem)
+		return UF("nft_tokens_list<"+ls.Name+">", ls, toks, args[0]), nil
 	case "anyval": // anyval("SortName", ref): the value packed in a protobuf Any
 		if len(e.Args) != 2 || e.Args[0].Kind != "str" {
 			return nil, fmt.Errorf("anyval(\"Sort\", ref)")
